@@ -176,6 +176,10 @@ func (d *ubjDec) payload(m byte) (Value, *refErr) {
 		if e := d.need(1); e != nil {
 			return Value{}, e
 		}
+		if d.b[d.p] > 127 {
+			// draft 12: a char is one ASCII character, 0..127
+			return Value{}, &refErr{st: Malformed, feature: "char above 127", off: d.p}
+		}
 		v := UintV(uint64(d.b[d.p]))
 		d.p++
 		return v, nil
